@@ -30,6 +30,7 @@ CONSTANTS
   Design = "%s"
   Depth = %d
   MaxObjs = 2
+  WithNormalize = %s
   QSet = {%s}
   Emit = %s
   Loaded = %s
@@ -151,6 +152,22 @@ def structure_recipes(seed):
     recG["via"] = "memory"
     recG["noswitch"] = True
     out.append(recG)
+    # H: a molecule with at least two hydrogens on C, N or O (X-H distances as X-ray structures give them, to be normalised)
+    recH = None
+    for _ in range(400):
+        cand = xtal.gen_molecular(rng, rowA, nmols=1, sizes=(rng.choice([4, 5, 6]),), n=48)
+        if cand is None:
+            continue
+        zs = [a["z"] for a in cand["asym"]]
+        nh = sum(1 for a_, b_ in cand["bonds"] if (zs[a_ - 1] == 1) != (zs[b_ - 1] == 1))
+        if nh >= 2:
+            recH = cand
+            break
+    if recH:
+        recH["gram"] = [[9 * x for x in row] for row in recH["gram"]]
+        recH["u"] = recH["u"] / 3.0
+        recH["via"] = "memory"
+        out.append(recH)
     return out
 
 
@@ -300,7 +317,9 @@ def state_of(cr, nf, u):
             p.append(k)
             off |= o
         pts.append(p)
-    st = {"choice": cr.space_group.choice, "n": nf, "gram": gram, "pts": pts}
+    sig = hashlib.sha1(np.asarray(cr.unit_cell.direct, dtype=float).tobytes() + np.asarray(cr.asymmetric_unit.positions, dtype=float).tobytes()
+                       + str(cr.space_group.choice).encode()).hexdigest()[:16]
+    st = {"choice": cr.space_group.choice, "n": nf, "gram": gram, "pts": pts, "sig": sig, "off": bool(off)}
     au = cr.asymmetric_unit
     aux = digest([int(cr.space_group.international_tables_number), cr.space_group.choice,
                   [int(s.integer_code) for s in cr.space_group.symmetry_operations], [str(x) for x in au.labels],
@@ -314,6 +333,7 @@ _FRESH = {}
 
 
 def drive(job):
+    import numpy as np
     rec, word = job["rec"], job["word"]
     nf, u = 3 * rec["n"], rec["u"]
     objs = {1: make_object(rec)}
@@ -347,6 +367,38 @@ def drive(job):
             ev.update(state=s, aux=aux, off=off)
             t["events"].append(ev)
             continue
+        if parts[1] == "n":
+            # the other in-place state change of the API: hydrogens moved to neutron X-H distances
+            _, aux_before, _ = state_of(cr, nf, u)
+            pos0 = np.array(cr.asymmetric_unit.positions, dtype=float)
+            d0 = np.array(cr.unit_cell.direct, dtype=float)
+            ev = {"ev": "normalize", "obj": i, "exc": "", "off": False, "state": st0, "aux": "", "aux_before": aux_before, "atoms": [],
+                  "cellsame": True}
+            try:
+                cr.normalize_hydrogen_bondlengths()
+            except Exception as e:
+                ev["exc"] = type(e).__name__
+            s, aux, off = state_of(cr, nf, u)
+            pos1 = np.array(cr.asymmetric_unit.positions, dtype=float)
+            d1 = np.array(cr.unit_cell.direct, dtype=float)
+            ev.update(state=s, aux=aux, off=off, cellsame=bool(np.array_equal(d0, d1)))
+            zs = [int(z) for z in cr.asymmetric_unit.atomic_numbers]
+            partner = {}
+            for a_, b_ in rec.get("bonds", []):
+                for h_, x_ in ((a_, b_), (b_, a_)):
+                    if zs[h_ - 1] == 1 and zs[x_ - 1] != 1:
+                        partner[h_ - 1] = x_ - 1
+            for k, z in enumerate(zs):
+                moved = bool(pos1.shape == pos0.shape and np.max(np.abs((pos1[k] - pos0[k]) @ d1)) > 1e-9) if pos1.shape == pos0.shape else True
+                xz, ln = 0, 0
+                if z == 1 and k in partner:
+                    xz = zs[partner[k]]
+                    dv = pos1[k] - pos1[partner[k]]
+                    dv = dv - np.round(dv)                   # nearest image
+                    ln = int(round(float(np.linalg.norm(dv @ d1)) * 1000))
+                ev["atoms"].append({"z": z, "moved": moved, "xz": xz, "len1000": ln})
+            t["events"].append(ev)
+            continue
         if parts[1] == "s":
             ev = {"ev": "switch", "obj": i, "ch": parts[2], "exc": "", "off": False, "state": st0}
             try:
@@ -363,9 +415,12 @@ def drive(job):
             import numpy as np
             key = (np.asarray(cr.unit_cell.direct, dtype=float).tobytes(),
                    np.asarray(cr.asymmetric_unit.positions, dtype=float).tobytes(), cr.space_group.choice, q, rec["number"])
+            # answers are digested on the grid of the exact domain; an object that has left it (normalised hydrogens) is digested
+            # 2^14 times finer (4e-7 in fractional coordinates: far above rounding noise, far below any real displacement)
+            nfq = nf * 16384 if s_before["off"] else nf
             if key not in _FRESH:
-                _FRESH[key] = answer(q, fresh_of(cr), nf, u)[0]
-            ans, exc = answer(q, cr, nf, u)
+                _FRESH[key] = answer(q, fresh_of(cr), nfq, u)[0]
+            ans, exc = answer(q, cr, nfq, u)
             s_after, aux_after, off = state_of(cr, nf, u)
             t["events"].append({"ev": "query", "obj": i, "q": q, "exc": exc, "off": off, "ans": ans, "fresh": _FRESH[key],
                                 "state": s_after, "aux": aux_after, "aux_before": aux_before})
@@ -373,7 +428,7 @@ def drive(job):
 
 
 def words_from_tlc(ctx, design_depth, names, loaded):
-    cfg = MC_CFG % ("spec", design_depth, qset(names), "TRUE", "TRUE" if loaded else "FALSE", "CONSTRAINT EmitWord")
+    cfg = MC_CFG % ("spec", design_depth, "TRUE", qset(names), "TRUE", "TRUE" if loaded else "FALSE", "CONSTRAINT EmitWord")
     res = tlc.run("mc/MC_CrystalObject.tla", cfg, timeout=900, workers=4)
     ctx._account(res, "MC_CrystalObject(emit depth=%d |Q|=%d)" % (design_depth, len(names)))
     if not res.ok:
@@ -384,7 +439,7 @@ def words_from_tlc(ctx, design_depth, names, loaded):
 def run(ctx, explain=False):
     # (M) the specified design keeps every memo consistent; also depth beyond what is replayed
     ctx.model_check("mc/MC_CrystalObject.tla",
-                    MC_CFG % ("spec", ctx.pick(5, 6), qset(CORE[:4] + ["to_cif_string"]), "FALSE", "TRUE", ""),
+                    MC_CFG % ("spec", ctx.pick(5, 6), "TRUE", qset(CORE[:4] + ["to_cif_string"]), "FALSE", "TRUE", ""),
                     name="MC_CrystalObject(spec)", timeout=1500)
     # unbounded histories: Apalache discharges the inductive invariant "no memo is stale" for the specified design
     from harness import apalache
@@ -400,7 +455,7 @@ def run(ctx, explain=False):
     if explain:
         outcome, wall, tail = apalache.check("CrystalObjectInd.tla", "CInitAsBuilt", "IndInit", "IndInv", 1)
         print("Apalache on the as-built design (memo kept across a switch): inductive step is", outcome)
-        res = tlc.run("mc/MC_CrystalObject.tla", MC_CFG % ("asbuilt", 3, qset(["unit_cell_atoms", "to_cif_string"]), "FALSE", "TRUE", ""),
+        res = tlc.run("mc/MC_CrystalObject.tla", MC_CFG % ("asbuilt", 3, "TRUE", qset(["unit_cell_atoms", "to_cif_string"]), "FALSE", "TRUE", ""),
                       timeout=300)
         print("as-built design (no invalidation on switch): violated", res.violated)
         print(res.stdout[-2500:])
@@ -432,16 +487,19 @@ def run(ctx, explain=False):
     # alphabet: the shortest history on which an answer kept from before the change can surface
     for rec in recs:
         if rec.get("noswitch"):
+            for q in QUERIES:
+                jobs.append({"rec": rec, "word": ["1:q:" + q, "1:n:0", "1:q:" + q, "c:1:2", "2:n:0", "2:q:" + q], "src": "ask-change-ask"})
             continue
         other = "R" if rec["choice"] == "H" else "H"
         for q in QUERIES:
             jobs.append({"rec": rec, "word": ["1:q:" + q, "1:s:" + other, "1:q:" + q], "src": "ask-change-ask"})
+            jobs.append({"rec": rec, "word": ["1:q:" + q, "1:n:0", "1:q:" + q, "1:s:" + other, "1:q:" + q], "src": "ask-change-ask"})
             if q not in CORE:
                 jobs.append({"rec": rec, "word": ["1:q:" + q, "c:1:2", "2:s:" + other, "2:q:" + q, "1:q:" + q, "2:s:" + rec["choice"], "2:q:" + q],
                              "src": "ask-change-ask"})
     # longer random histories
     rng = ctx.rng
-    alphabet1 = ["1:q:" + q for q in QUERIES] + ["1:s:H", "1:s:R"]
+    alphabet1 = ["1:q:" + q for q in QUERIES] + ["1:s:H", "1:s:R", "1:n:0"]
     for _ in range(ctx.pick(150, 3000)):
         rec = rng.choice(recs)
         word, nobj = [], 1
